@@ -105,6 +105,7 @@ func cpid(p types.PolicyID) string {
 type obs struct {
 	id, key     string
 	name, again *string
+	f           func() string
 }
 
 type caseT struct {
@@ -144,25 +145,34 @@ func (c *caseT) hashEntry(kind int, in string) {
 	c.tbl = append(c.tbl, fmt.Sprintf("(%d%%N, %s, %s)", kind, cb(in), cb(out)))
 }
 
+func runName(f func() string) (res *string) {
+	defer func() {
+		if r := recover(); r != nil {
+			res = nil
+		}
+	}()
+	s := f()
+	return &s
+}
+
+// add runs the real function now; the second call ("again") is made at the end of the case, after every other
+// identity of the case has been named, in reverse order (finish), so that a name depending on what the process named
+// earlier shows up as name != again or as two identities sharing a name.
 func (c *caseT) add(id, key string, f func() string) {
-	run := func() (res *string) {
-		defer func() {
-			if r := recover(); r != nil {
-				res = nil
-			}
-		}()
-		s := f()
-		return &s
-	}
-	a := run()
-	b := run()
-	c.obs = append(c.obs, obs{id: id, key: key, name: a, again: b})
+	a := runName(f)
+	c.obs = append(c.obs, obs{id: id, key: key, name: a, f: f})
 	if len(c.sample) < 12 {
 		if a == nil {
 			c.sample = append(c.sample, key+" -> PANIC")
 		} else {
 			c.sample = append(c.sample, key+" -> "+*a)
 		}
+	}
+}
+
+func (c *caseT) finish() {
+	for i := len(c.obs) - 1; i >= 0; i-- {
+		c.obs[i].again = runName(c.obs[i].f)
 	}
 }
 
@@ -561,6 +571,52 @@ func colliderCase(r *rng, c *caseT, which int) {
 	}
 }
 
+// groupFamilyCase: a HISTORY of policy groups named one after the other in this process: families that share selector,
+// direction, first policy and size but differ in a later policy or in the order of the later policies, both directions,
+// and the first group named again at the end.  The name must be a function of the whole (direction, selector, ordered
+// policy list) and of nothing the process did before.
+func groupFamilyCase(r *rng, c *caseT) {
+	c.tags["theme:group-history"] = true
+	sel := r.pick([]string{"all()", "a == 'b'", "has(x) && y in {'1','2'}", "projectcalico.org/namespace == 'default'"}) + randStr(r, nameChars, r.intn(3))
+	n := 2 + r.intn(3)
+	var base []types.PolicyID
+	for i := 0; i < n; i++ {
+		base = append(base, genPolicy(r, 8+r.intn(20)))
+	}
+	extra := genPolicy(r, 8+r.intn(20))
+	variants := [][]types.PolicyID{base}
+	// last policy replaced
+	v := append([]types.PolicyID{}, base...)
+	v[n-1] = extra
+	variants = append(variants, v)
+	// last policy renamed
+	v = append([]types.PolicyID{}, base...)
+	v[n-1].Name += "x"
+	variants = append(variants, v)
+	// namespace / kind of the second policy changed
+	v = append([]types.PolicyID{}, base...)
+	v[1].Kind = kinds[(indexOf(kinds, v[1].Kind)+1)%7]
+	variants = append(variants, v)
+	if n >= 3 {
+		// later policies re-ordered
+		v = append([]types.PolicyID{}, base...)
+		v[1], v[n-1] = v[n-1], v[1]
+		variants = append(variants, v)
+		// middle policy replaced
+		v = append([]types.PolicyID{}, base...)
+		v[1] = extra
+		variants = append(variants, v)
+	}
+	for _, inb := range []bool{true, false} {
+		for _, ps := range variants {
+			c.group(inb, sel, ps)
+		}
+	}
+	// the first group once more, after the others
+	c.group(true, sel, base)
+	c.group(true, sel+"x", base)
+}
+
 func genCase(r *rng, c *caseT) {
 	theme := r.intn(14)
 	switch theme {
@@ -682,6 +738,12 @@ func genCase(r *rng, c *caseT) {
 		q[0].Name += "x"
 		c.group(true, sel, q)
 		c.group(false, "", nil)
+		if len(ps) >= 2 {
+			t := append([]types.PolicyID{}, ps...)
+			t[len(t)-1].Name += "y" // same selector, direction, first policy and size; later policy differs
+			c.group(true, sel, t)
+			c.group(false, sel, t)
+		}
 		// a policy and an endpoint in the same table
 		c.policy(true, false, ps[0])
 		c.endpoint(rules.WorkloadToEndpointPfx, "cali"+randStr(r, "0123456789abcdef", 11), false)
@@ -914,9 +976,12 @@ func main() {
 			colliderCase(r, c, i)
 		} else if i == 6 || i%40 == 7 {
 			staticCase(r, c, i == 6)
+		} else if i == 8 || i%40 == 9 {
+			groupFamilyCase(r, c)
 		} else {
 			genCase(r, c)
 		}
+		c.finish()
 		var os_, keys []string
 		for _, o := range c.obs {
 			os_ = append(os_, fmt.Sprintf("{| o_id := %s; o_name := %s; o_again := %s |}", o.id, copt(o.name), copt(o.again)))
